@@ -4,7 +4,7 @@ Every theorem is about Model/C20 (`parseUri` = the REPAIRED `RadioDriver.parse_u
 constants, format strings, guard texts and class list are regenerated from /repo (Gen/C20).  URIs are written with the
 printers of Spec/C20 (`mkUri`, `printUri`); helper lemmas are in Proofs/C20*.
 -/
-import CfVerif.Proofs.C20Scan
+import CfVerif.Proofs.C20Link
 namespace CfVerif.C20
 open CfVerif
 
@@ -157,5 +157,145 @@ theorem scan_selected_parse_back (serials : List Str) (d c : Nat) (hc : c ≤ 12
     parseUri serials (scanUri none r c) = .ok ⟨0, c, r.value, [0xE7, 0xE7, 0xE7, 0xE7, 0xE7], none⟩ :=
   ⟨scanSelEntry_spec d c hc r, by simpa [scanUri, scanPlainAddr] using scanSelReport_spec c r,
    scan_parse_back_aux serials none (by simp) r c hc⟩
+
+/-! ## Drivers -/
+
+theorem gen_guards : Gen.C20.driverGuards.map (fun e => (e.1, e.2.map (fun g => g.1))) =
+    [("RadioDriver", ["startswith"]), ("UsbDriver", ["search", "search"]), ("SerialDriver", ["search"]),
+     ("UdpDriver", ["search"]), ("PrrtDriver", ["search"]), ("TcpDriver", ["search"])] ∧
+    Gen.C20.radioConnectFirst = "devid, channel, datarate, address, rate_limit = self.parse_uri(uri)" ∧
+    Gen.C20.radioConnectSets = ["self._radio.set_address(address)", "self._radio.set_arc(_nr_of_arc_retries)",
+      "self._radio.set_channel(channel)", "self._radio.set_data_rate(datarate)"] := by decide
+theorem gen_guard_regexes : (Gen.C20.driverGuards.map (fun e => e.2.map (fun g => (parseRe g.2).isSome || g.1 == "startswith"))).flatten.all id = true ∧
+    (parseRe Gen.C20.serialUriRegex).isSome = true ∧ Gen.C20.serialDeviceExpr = "uri_data.group(1)" ∧
+    Gen.C20.usbOpenExpr = "CfUsb(devid=int(uri_data.group(1)))" := by decide
+theorem gen_get_link_driver : Gen.C20.getLinkTry = ["instance = cls()",
+      "instance.connect(uri, radio_link_statistics_callback, link_error_callback)", "return instance"] ∧
+    Gen.C20.getLinkHandlers = ["WrongUriType: continue"] ∧ Gen.C20.getLinkAfterLoop = ["return None"] := by decide
+
+/-- `init_drivers()`: the class lists with and without the optional serial driver (`USE_CFLINK` not `cpp`). -/
+theorem init_drivers_lists : initDrivers false = some [.radio, .usb, .udp, .prrt, .tcp] ∧
+    initDrivers true = some [.radio, .usb, .serial, .udp, .prrt, .tcp] := by decide
+
+/-- **one_driver_per_scheme.**  The scheme guards of the registered drivers are pairwise disjoint: no URI is accepted
+by two different drivers. -/
+theorem one_driver_per_scheme (uri : Str) (d1 d2 : Drv) (h1 : claims d1 uri = true) (h2 : claims d2 uri = true) : d1 = d2 :=
+  one_driver_aux uri d1 d2 h1 h2
+
+/-- Each known scheme is claimed by its driver, whatever follows the `scheme://` (for usb: `usb://<index>`); a driver
+only claims URIs that start with its own scheme, so an unknown scheme is claimed by no driver. -/
+theorem scheme_claimed_by_its_driver (rest : Str) :
+    (claims .radio ("radio://".toList ++ rest) = true ∧ claims .serial ("serial://".toList ++ rest) = true ∧
+     claims .udp ("udp://".toList ++ rest) = true ∧ claims .prrt ("prrt://".toList ++ rest) = true ∧
+     claims .tcp ("tcp://".toList ++ rest) = true ∧ ∀ n : Nat, claims .usb ("usb://".toList ++ natStr n) = true) ∧
+    (∀ (d : Drv) (uri : Str), claims d uri = true → isPrefix (schemeOf d) uri = true) :=
+  ⟨by
+    have e : "radio://".toList = schemeOf .radio ∧ "serial://".toList = schemeOf .serial ∧ "udp://".toList = schemeOf .udp ∧
+        "prrt://".toList = schemeOf .prrt ∧ "tcp://".toList = schemeOf .tcp ∧ "usb://".toList = schemeOf .usb := by decide
+    rw [e.1, e.2.1, e.2.2.1, e.2.2.2.1, e.2.2.2.2.1, e.2.2.2.2.2]
+    exact scheme_claimed_aux rest, claims_prefix⟩
+
+/-- `get_link_driver` returns the answer of THE driver that claims the URI, for every class list that contains it (any
+order, with or without the optional drivers, even with duplicates), and `None` when no driver of the list claims it. -/
+theorem get_link_driver_picks (env : Env) (cls : List Drv) (uri : Str) :
+    (∀ d, d ∈ cls → claims d uri = true → getLinkDriver env cls uri = (connect env d uri).map (fun c => some (d, c))) ∧
+    ((∀ d ∈ cls, claims d uri = false) → getLinkDriver env cls uri = .ok none) :=
+  ⟨fun d hd hc => getLinkDriver_picks_aux env uri d hc cls hd, getLinkDriver_none_aux env uri cls⟩
+
+/-- The radio settings applied are the parsed ones: a well-formed radio URI whose dongle is present connects the radio
+driver with exactly the result of `parse_uri`. -/
+theorem radio_uri_connects_with_parsed_settings (env : Env) (cls : List Drv) (hmem : Drv.radio ∈ cls) (uri : Str) (r : Radio)
+    (hc : claims .radio uri = true) (hp : parseUri env.serials uri = .ok r) (hpres : env.radioPresent r.devid = true) :
+    getLinkDriver env cls uri = .ok (some (.radio, .radio r)) := by
+  rw [(get_link_driver_picks env cls uri).1 .radio hmem hc]
+  simp [connect, hc, hp, hpres, Except.map]
+
+/-! ## open_link -/
+
+theorem gen_open_link : Gen.C20.openLinkBefore = ["self.connection_requested.call(link_uri)", "self.state = State.INITIALIZED",
+      "self.link_uri = link_uri"] ∧ Gen.C20.openLinkHandlerTypes = ["Exception"] ∧
+    Gen.C20.openLinkAssign = "self.link = cflib.crtp.get_link_driver(link_uri, self.link_statistics.radio_link_statistics_callback, self._link_error_cb)" ∧
+    Gen.C20.openLinkNoDriverTest = "not self.link" ∧
+    Gen.C20.openLinkNoDriverCalls = ["self.connection_failed.call(link_uri, message)"] ∧
+    Gen.C20.openLinkHandlerCalls = ["self.link.close()", "self.connection_failed.call(link_uri, exception_text)"] ∧
+    Gen.C20.openLinkNoDriverMsg = "'No driver found or malformed URI: {}'.format(link_uri)" := by decide
+
+/-- **unknown_or_malformed_gives_connection_failed.**  On a Crazyflie without an open link: if no driver of the list
+claims the URI (unknown scheme), or the claiming driver raises (malformed URI: any error of `parse_uri`, or any other
+exception of `connect`), `open_link` fires `connection_requested` and then exactly one `connection_failed`, no
+exception escapes and no link is left open. -/
+theorem unknown_or_malformed_gives_connection_failed (env : Env) (cls : List Drv) (setupRaises closeRaises : Bool) (uri : Str) :
+    ((∀ d ∈ cls, claims d uri = false) →
+      openLink env cls false setupRaises closeRaises uri =
+        { events := [.requested uri, .failedNoDriver uri], escaped := none, link := .none }) ∧
+    (∀ d e, d ∈ cls → claims d uri = true → connect env d uri = .error e →
+      openLink env cls false setupRaises closeRaises uri =
+        { events := [.requested uri, .failedException uri], escaped := none, link := .none }) := by
+  refine ⟨fun h => openLink_no_driver env cls false _ _ uri (getLinkDriver_none_aux env uri cls h), ?_⟩
+  intro d e hd hc he
+  have := getLinkDriver_picks_aux env uri d hc cls hd
+  rw [he] at this
+  exact openLink_driver_raises env cls _ _ uri e this
+
+/-- In particular a malformed radio URI (one on which `parse_uri` raises `e`) gives `connection_failed`. -/
+theorem malformed_radio_uri_gives_connection_failed (env : Env) (cls : List Drv) (hmem : Drv.radio ∈ cls)
+    (setupRaises closeRaises : Bool) (uri : Str) (hc : claims .radio uri = true) (e : Err) (hp : parseUri env.serials uri = .error e) :
+    openLink env cls false setupRaises closeRaises uri =
+      { events := [.requested uri, .failedException uri], escaped := none, link := .none } :=
+  (unknown_or_malformed_gives_connection_failed env cls setupRaises closeRaises uri).2 .radio e hmem hc
+    (by simp [connect, hc, hp])
+
+/-- `open_link` never reports more than one `connection_failed`, and an exception can only escape from a `close()` that
+raises inside the handler (closing a link left open by an earlier call, or the new link after a failed setup). -/
+theorem open_link_no_escape (env : Env) (cls : List Drv) (prev setupRaises closeRaises : Bool) (uri : Str) :
+    failedCount (openLink env cls prev setupRaises closeRaises uri).events ≤ 1 ∧
+    ((openLink env cls prev setupRaises closeRaises uri).escaped ≠ none → closeRaises = true ∧ (prev = true ∨ setupRaises = true)) :=
+  ⟨openLink_failed_le_one env cls prev setupRaises closeRaises uri, openLink_escape env cls prev setupRaises closeRaises uri⟩
+
+/-! ## uri_helper -/
+
+theorem gen_helper : Gen.C20.helperEnvName = "CFLIB_URI" ∧ Gen.C20.helperAddrEnvName = "CFLIB_URI" ∧
+    Gen.C20.helperAddressExpr = "uri.rsplit('/', 1)[-1]" ∧ Gen.C20.helperAddressReturns = ["default", "int(address, 16)", "None"] := by decide
+
+/-- The defaults of `uri_from_env` / `address_from_env` agree with `parse_uri`: the default URI is a well-formed radio
+URI for dongle 0, channel 80, 2M, and its address is the default address, most significant byte first. -/
+theorem helper_defaults (serials : List Str) :
+    uriFromEnv none = printUri (natStr 0) 80 .r2M "E7E7E7E7E7".toList none ∧
+    parseUri serials (uriFromEnv none) = .ok ⟨0, 80, Rate.r2M.value, [0xE7, 0xE7, 0xE7, 0xE7, 0xE7], none⟩ ∧
+    addressFromEnv none = some 0xE7E7E7E7E7 ∧ beBytes5 0xE7E7E7E7E7 = [0xE7, 0xE7, 0xE7, 0xE7, 0xE7] := by
+  have h1 : uriFromEnv none = printUri (natStr 0) 80 .r2M "E7E7E7E7E7".toList none := by decide
+  refine ⟨h1, ?_, by decide, by decide⟩
+  rw [h1, parse_print serials (natStr 0) 0 (.index 0 (by decide)) 80 (by decide) .r2M "E7E7E7E7E7".toList (by decide) (by decide)
+    (by decide) none (by simp)]
+  decide
+
+/-! ## Non-vacuity: concrete instances of the hypotheses and of the statements -/
+
+example : printUri (natStr 3) 80 .r250K "a1B2".toList (some 5) = "radio://3/80/250K/a1B2?rate_limit=5".toList := by decide
+example : beBytes5 (hexValue "a1B2".toList) = [0, 0, 0, 0xA1, 0xB2] := by decide
+example : parseUri [] "radio://3/80/250K/a1B2?rate_limit=5".toList = .ok ⟨3, 80, 0, [0, 0, 0, 0xA1, 0xB2], some 5⟩ := by decide
+example : Dongle ["ABCDEF0123".toList, "E7E7E7E7E7".toList] "e7e7e7E7e7".toList 1 := .serial _ _ (by decide) (by decide) (by decide)
+example : Dongle [] (natStr 999999999) 999999999 := .index _ (by decide)
+example : ∀ c ∈ "E7e7".toList, IsHex c := by decide
+example : OptOk ("safelink".toList, "1".toList) ∧ "safelink".toList ≠ "rate_limit".toList := by unfold OptOk; decide
+example : queryText [("a".toList, "b".toList), ("rate_limit".toList, natStr 100)] = "a=b&rate_limit=100".toList := by decide
+example : mkUri (natStr 0) [] true (limitQuery (some 10)) = "radio://0/?rate_limit=10".toList := by decide
+example : parseUri [] "radio://0".toList = .ok ⟨0, 2, 2, [0xE7, 0xE7, 0xE7, 0xE7, 0xE7], none⟩ := by decide
+example : pyInt "8 0".toList = .error .valueError ∧ (∀ c ∈ "8 0".toList, FieldChar c) := by decide
+example : parseUri [] "radio://0/80/2M/E7E7E7E7E7E".toList = .error .valueError ∧
+    parseUri [] "radio://0/80/2M/E7E7E7E7E7E7".toList = .error .structError := by decide
+example : ¬ ("nosuch".toList.length < 10 ∧ "nosuch".toList ≠ [] ∧ ∀ c ∈ "nosuch".toList, isDigit c = true) ∧
+    indexOf? ("nosuch".toList.map upperAscii) ["E7E7E7E7E7".toList] = none := by decide
+example : scanUri (some 0xE7E7E7E701) .r1M 40 = "radio://0/40/1M/E7E7E7E701".toList ∧
+    scanUri none .r250K 7 = "radio://0/7/250K".toList ∧ scanUri (some 0xE7E7E7E7E7) .r2M 7 = "radio://0/7/2M".toList := by decide
+example : scanSetAddress 0xE7E7E7E701 = .ok [0xE7, 0xE7, 0xE7, 0xE7, 0x01] := by decide
+example : claims .usb "usb://12".toList = true ∧ claims .usb "usb://12\n".toList = true ∧ claims .usb "usb://x".toList = false ∧
+    claims .usb "usb://1/".toList = false ∧ claims .tcp "tcp://192.168.4.1:5000".toList = true := by decide
+example : ∀ d ∈ Drv.all, claims d "foo://bar".toList = false := by decide
+example : openLink ⟨[], fun _ => true, fun _ => true, [], fun _ _ => true⟩ [.radio, .usb, .udp, .prrt, .tcp] false false false
+    "radio://0/80/2M/XYZ".toList = ⟨[.requested "radio://0/80/2M/XYZ".toList, .failedException "radio://0/80/2M/XYZ".toList], none, .none⟩ := by
+  decide
+example : (openLink ⟨[], fun _ => true, fun _ => true, [], fun _ _ => true⟩ [.radio, .usb] true false true "radio://0/x".toList).escaped =
+    some .exception := by decide
 
 end CfVerif.C20
